@@ -376,7 +376,21 @@ func TestC20EngineIds(t *testing.T) {
 		label := fmt.Sprintf("case %d", caseNo)
 		var dup string
 		flows := 0
+		// half of the instances without sub-processes are started a second time
+		// when their run is over (the start events fire again, new flows run
+		// through the process): the ids of both runs must differ
+		// (a sub-process entered again is finding C12-F3's pattern)
+		restart := blk.Features().Sub == 0 && rapid.Bool().Draw(rt, "restart")
+		restartErr := ""
 		hk := &drive.Hooks{BeforeClose: func(in *drive.Inst, m *model.M, out *drive.Outcome) {
+			if restart {
+				if err := in.StartAll(); err != nil {
+					restartErr = err.Error()
+				}
+				if _, err := in.Quiesce(); err != nil {
+					restartErr = err.Error()
+				}
+			}
 			seenMu.Lock()
 			defer seenMu.Unlock()
 			add := func(kind, s string) {
@@ -399,7 +413,11 @@ func TestC20EngineIds(t *testing.T) {
 			rec.Inconclusive("TestC20EngineIds", out.Inconcl)
 			rt.Fatalf("inconclusive: %s", out.Inconcl)
 		}
-		rec.Case("TestC20EngineIds", rec.Hash(c), flows >= 2, []string{"engineRun"}, map[string]any{"flows": flows})
+		if restartErr != "" {
+			rec.Inconclusive("TestC20EngineIds", restartErr)
+			rt.Fatalf("inconclusive: %s", restartErr)
+		}
+		rec.Case("TestC20EngineIds", rec.Hash(c), flows >= 2, []string{"engineRun", fmt.Sprintf("startedTwice:%v", restart)}, map[string]any{"flows": flows})
 		if dup != "" {
 			rt.Fatalf("%s", rec.Fail(rec.Failure{Property: prop, Test: "TestC20EngineIds", Symptom: "trace-id-repeat", Detail: dup, Descriptor: c}))
 		}
